@@ -55,6 +55,11 @@ def classify(name: str, row: ast.Dict):
         if (vin.id, vout.id) == (ty, "str"):
             return ty, False
         raise Untranslatable(f"{name}: in/out {vin.id}/{vout.id} for {ty}")
+    if ty == "int" and validator is None and plain(vin) and vin.id == "int":
+        # `lambda i: str(int(i))` (F06a repair): same text as `str` on every int, bools become 1/0
+        lout = _lambda(vout)
+        if lout and _src(lout[1]) == f"str(int({lout[0]}))":
+            return "int", False
     if ty == "bool" and validator is None:
         lin, lout = _lambda(vin), _lambda(vout)
         if lin and lout:
